@@ -613,9 +613,42 @@ Section Envelope.
     | inl e => inl e
     | inr w => get_func_attr w
     end.
+
+  (* The time of serialisation.  A callable carries state that is pickled by value (closure
+     cells, a bound instance, partial arguments, mutable defaults); `func` is the function
+     VALUE, i.e. what dill would write at that moment.  pythontask(f) is applied when the
+     value is f_dec; each later call of the decorated function happens when the value is
+     f_now, and it is f_now that is serialised (serialize_obj(f) stands inside `decor`). *)
+  Definition decorated_call (callable : bool) (f_dec f_now : func) (args : list atom) (kw : kwargs)
+    : perr + wire :=
+    if callable
+    then inr (ser_bson (mkEnv (ser_obj f_now) args (Some kw)))
+    else inl ValueError.                (* raised by pythontask(f) itself *)
+
+  (* one task creation: the function value at that moment, the arguments *)
+  Record step := mkStep { st_f : func; st_args : list atom; st_kw : option kwargs }.
+
+  Definition kw_or_empty (kw : option kwargs) : kwargs := match kw with Some l => l | None => [] end.
+
+  (* a sequence of task creations from one callable, through the decorator (decorated once,
+     when the value was f_dec) or through the constructor, each followed by its decoding *)
+  Definition encode_step (decor callable : bool) (f_dec : func) (s : step) : perr + wire :=
+    if decor
+    then decorated_call callable f_dec (st_f s) (st_args s) (kw_or_empty (st_kw s))
+    else python_task callable (st_f s) (st_args s) (st_kw s).
+
+  Definition transport_seq (decor callable : bool) (f_dec : func) (steps : list step) :=
+    map (fun s => match encode_step decor callable f_dec s with
+                  | inl e => inl e
+                  | inr w => get_func_attr w
+                  end) steps.
 End Envelope.
 
 Arguments mkEnv {blob}.
 Arguments e_func {blob}.
 Arguments e_args {blob}.
 Arguments e_kwargs {blob}.
+Arguments mkStep {func}.
+Arguments st_f {func}.
+Arguments st_args {func}.
+Arguments st_kw {func}.
